@@ -4,9 +4,13 @@ usage: seedtable.py > seeded/MATRIX.md"""
 import glob, json, os
 HERE = os.path.dirname(os.path.dirname(os.path.abspath(__file__)))
 rows = []
+retired = []
 for mp in sorted(glob.glob(os.path.join(HERE, "seeded", "*", "meta.json"))):
     m = json.load(open(mp))
     sid = os.path.basename(os.path.dirname(mp))
+    if m.get("retired"):
+        retired.append((sid, m["property"], " ".join(m["retired"].split())))
+        continue
     summ = " ".join(m.get("summary", "").split())
     if len(summ) > 150:
         summ = summ[:147] + "..."
@@ -21,3 +25,9 @@ for r in rows:
 n = len(rows); d = sum(1 for r in rows if r[3] != "-" or r[4] != "-")
 print()
 print("%d of %d seeded changes are reported by at least one registered check." % (d, n))
+if retired:
+    print()
+    print("Retired (kept for reference, not counted): a repair of snower/slock made the change harmless, so it no longer breaks its property.")
+    print()
+    for r in retired:
+        print("* %s (%s): %s" % r)
